@@ -1,8 +1,9 @@
-/- Units commands (C08, C12, C13, C18): `uparse`, `uprint`, `utree`, `udefs`. -/
+/- Units commands (C08, C12, C13, C18): `uparse`, `uprint`, `utree`, `udefs`, `usession`. -/
 import QExPy.Driver.Json
 import QExPy.Model.Units
 import QExPy.Model.UnitParse
 import QExPy.Model.UnitDefs
+import QExPy.Model.ParseSession
 namespace QExPy.Drv
 open Lean QExPy QExPy.U
 
@@ -121,7 +122,29 @@ def cmdUDefs (j : Json) : R Json := do
     ("defs", Json.arr (defs.map fun (n, u) =>
       Json.arr #[Json.str (String.ofList n), putUnits u]).toArray)])
 
+/-- ["parse", s] | ["edit", h, "set", key, num, den] | ["edit", h, "pop", key] |
+    ["edit", h, "clear"] | ["read", h] : one request of a parse session -/
+def getPReq (j : Json) : R PReq := do
+  let t ← getArr j
+  match (← getStr t[0]!) with
+  | "parse" => pure (PReq.parse (← getStr t[1]!).toList)
+  | "read" => pure (PReq.read (← t[1]!.getNat?))
+  | "edit" => do
+    let h ← t[1]!.getNat?
+    match (← getStr t[2]!) with
+    | "set" => pure (PReq.edit h (Edit.set (← getStr t[3]!).toList (← getRat t[4]! t[5]!)))
+    | "pop" => pure (PReq.edit h (Edit.pop (← getStr t[3]!).toList))
+    | "clear" => pure (PReq.edit h Edit.clear)
+    | k => throw s!"unknown edit {k}"
+  | k => throw s!"unknown session request {k}"
+
+/-- {"cmd":"usession","steps":[..]} → the reply of every request of the history (`runS`) -/
+def cmdUSession (j : Json) : R Json := do
+  let rs ← (← getArr (← field j "steps")).toList.mapM getPReq
+  pure (obj [("replies", Json.arr ((runS [] rs).map putOptUnits).toArray)])
+
 def unitsCmds : List (String × (Json → R Json)) :=
-  [("uparse", cmdUParse), ("uprint", cmdUPrint), ("utree", cmdUTree), ("udefs", cmdUDefs)]
+  [("uparse", cmdUParse), ("uprint", cmdUPrint), ("utree", cmdUTree), ("udefs", cmdUDefs),
+   ("usession", cmdUSession)]
 
 end QExPy.Drv
